@@ -113,13 +113,25 @@ SHARP = (3, 1)       # families with a sharp, unique autocorrelation peak (noise
 def tid(t):
     return '%s/%d/%d/%d/bw%d/%d/f%d/c%d/v%d/s%d/m%d/g%d/st%d' % (
         t['kind'], t['Fs'], t['ch'], t['app'], t['bw'], t['bitrate'], t['frame'], t['cplx'], t['vbr'], t['fmt'],
-        t['force'], t['family'], t['stereo'])
+        t['force'], t['family'], t['stereo']) + ('/a%d' % t['aux'] if t.get('aux') else '')
 
 
 def cfg_line(t, sigseed):
-    return 'rt %s %d %d %d %d %d %d %d %d %d %d %d %d %d 0' % (
+    return 'rt %s %d %d %d %d %d %d %d %d %d %d %d %d %d %d' % (
         t['kind'], t['Fs'], t['ch'], t['app'], t['bw'], t['bitrate'], t['frame'], t['cplx'], t['vbr'], t['fmt'],
-        t['force'], t['family'], t['stereo'], sigseed)
+        t['force'], t['family'], t['stereo'], sigseed, t.get('aux', 0))
+
+
+def aux_of(fc=0, dch=0, gain=0, fec=0, alt=0, sig=0):
+    """Option digits of the harness line (see harness/c04_roundtrip.c): forced channels, decoder channels, decoder
+    gain, in-band FEC, mid-stream alternation, signal hint."""
+    return fc + 10 * dch + 100 * gain + 1000 * fec + 10000 * alt + 100000 * sig
+
+
+def aux_digits(t):
+    a = t.get('aux', 0)
+    return {'fc': a % 10, 'dch': a // 10 % 10, 'gain': a // 100 % 10, 'fec': a // 1000 % 10, 'alt': a // 10000 % 10,
+            'sig': a // 100000 % 10}
 
 
 def bitrate_floor(Fs, frame, ch):
@@ -206,9 +218,124 @@ def channel_templates(thorough):
     return out
 
 
+def valid_forces(Fs, app, fx):
+    out = [0]
+    if app != 2051:
+        out.append(3)
+        if fx >= 100:
+            out.append(1)
+            if Fs >= 24000:
+                out.append(2)
+    return out
+
+
+def mono_templates():
+    """A stereo encoder coding a mono stream (OPUS_SET_FORCE_CHANNELS(1), or a bitrate at which the encoder chooses
+    mono itself) x every frame duration that goes through the multi-frame path x every mode.  Dual-mono input (the
+    down-mix is lossless) so that the SNR at the reported delay is meaningful."""
+    out = []
+    for Fs in (48000, 16000):
+        for app in APPS:
+            for force in valid_forces(Fs, app, 200):
+                for fx in (200, 400, 600, 800, 1000, 1200):
+                    for trig in ('forced', 'low'):
+                        k = len(out)
+                        br = ((32000 if force == 1 else 48000) if trig == 'forced' else (14000, 12000, 16000)[k % 3])
+                        out.append(dict(kind='single', Fs=Fs, ch=2, app=app, bw=0, bitrate=br, frame=Fs * fx // 10000,
+                                        cplx=(10, 5, 0)[k % 3], vbr=1 + k % 2 if force == 1 else k % 3, fmt=(k // 2) % 3, force=force,
+                                        family=k % 5, stereo=1 if k % 8 == 7 else 4, aux=aux_of(fc=1) if trig == 'forced' else 0,
+                                        cls='mono'))
+    return out
+
+
+def axes_templates(n, seed):
+    """Sparse covering of the option axes the other classes hold fixed (forced channels, decoder channel count != the
+    encoder's, decoder gain, in-band FEC, mid-stream alternation of mode / bitrate / forced channels, signal hint)
+    against each other and against Fs, channels, application, frame duration, forced mode, rate control, sample format
+    and low bitrates: n random draws, every axis value uniform."""
+    r = common.SplitMix(seed)
+    out, seen = [], set()
+    while len(out) < n:
+        Fs = r.choice(RATES); ch = r.choice([1, 2]); app = r.choice(APPS)
+        fx = r.choice([25, 50, 100, 200, 200, 400, 600, 800, 1000, 1200]); frame = Fs * fx // 10000
+        force = r.choice(valid_forces(Fs, app, fx))
+        per_ch = r.choice([10000, 14000, 20000, 32000, 64000, 96000])
+        bitrate = int(per_ch * (1.6 if ch == 2 else 1))
+        vbr = r.below(3)
+        if force == 1:
+            vbr = 1 + r.below(2); bitrate = min(bitrate, 64000 * ch)
+        fc = r.below(3) if ch == 2 else 0
+        dch = r.choice([0, 3 - ch, 0])
+        alt = r.choice([0, 0, 1, 2, 3])
+        if alt == 1 and (app == 2051 or fx < 100):
+            alt = 0
+        if alt == 3 and ch == 1:
+            alt = 2
+        if alt == 3:
+            fc = 0
+        monoish = ch == 2 and (fc == 1 or alt == 3 or per_ch <= 14000 or dch == 1)
+        t = dict(kind='single', Fs=Fs, ch=ch, app=app, bw=0, bitrate=bitrate, frame=frame, cplx=r.choice([0, 3, 6, 10]), vbr=vbr,
+                 fmt=r.below(3), force=force, family=r.below(5),
+                 stereo=0 if ch == 1 else (r.choice([4, 4, 1]) if monoish else r.below(5)),
+                 aux=aux_of(fc=fc, dch=dch, gain=r.below(3), fec=r.below(3), alt=alt, sig=r.below(3)), cls='axes')
+        if tid(t) in seen:
+            continue
+        seen.add(tid(t)); out.append(t)
+    return out
+
+
+def msframe_templates():
+    """Multistream / projection codecs at frame durations other than 20 ms, with decoder gain and FEC."""
+    out = []
+    for kind, ch in (('ms1', 6), ('ms1', 3), ('ms255', 4), ('proj', 4), ('ms0', 2)):
+        for Fs in (48000, 16000):
+            for fx in (25, 50, 100, 400, 600):
+                k = len(out)
+                out.append(dict(kind=kind, Fs=Fs, ch=ch, app=APPS[k % 3], bw=0, bitrate=(64000, 96000)[k % 2] * ch, frame=Fs * fx // 10000,
+                                cplx=(10, 5, 2)[k % 3], vbr=k % 3, fmt=(k // 3) % 3, force=0, family=(0, 3, 1, 2, 4)[k % 5], stereo=0,
+                                aux=aux_of(gain=k % 3, fec=(k // 3) % 3), cls='msfr'))
+    return out
+
+
+AXES_SEED = 20260930
+PAIR_AXES = ('Fs', 'ch', 'app', 'fx', 'force', 'vbr', 'fmt', 'fc', 'dch', 'gain', 'fec', 'alt', 'sig')
+
+
+def pair_coverage(ts):
+    """Fraction of value pairs of two different axes, among those any template could show, that some template shows
+    (computed over the single-stream templates)."""
+    rows = []
+    for t in ts:
+        if t['kind'] != 'single':
+            continue
+        d = dict(aux_digits(t)); d.update(Fs=t['Fs'], ch=t['ch'], app=t['app'], fx=t['frame'] * 10000 // t['Fs'], force=t['force'],
+                                          vbr=t['vbr'], fmt=t['fmt'])
+        rows.append(d)
+    vals = {a: sorted({r[a] for r in rows}) for a in PAIR_AXES}
+    infeasible = lambda a, va, b, vb: (
+        (a == 'ch' and va == 1 and ((b == 'fc' and vb) or (b == 'dch' and vb == 1) or (b == 'alt' and vb == 3))) or
+        (a == 'ch' and va == 2 and b == 'dch' and vb == 2) or
+        (a == 'app' and va == 2051 and ((b == 'force' and vb) or (b == 'alt' and vb == 1))) or
+        (a == 'fx' and va < 100 and ((b == 'force' and vb in (1, 2)) or (b == 'alt' and vb == 1))) or
+        (a == 'Fs' and va < 24000 and b == 'force' and vb == 2) or
+        (a == 'force' and va == 1 and b == 'vbr' and vb == 0) or
+        (a == 'fc' and va and b == 'alt' and vb == 3) or
+        (a == 'dch' and va == 2 and ((b == 'fc' and vb) or (b == 'alt' and vb == 3))))
+    have = set()
+    for r in rows:
+        for i, a in enumerate(PAIR_AXES):
+            for b in PAIR_AXES[i + 1:]:
+                have.add((a, r[a], b, r[b]))
+    want = [(a, va, b, vb) for i, a in enumerate(PAIR_AXES) for b in PAIR_AXES[i + 1:] for va in vals[a] for vb in vals[b]
+            if not infeasible(a, va, b, vb) and not infeasible(b, vb, a, va)]
+    missing = [w for w in want if w not in have]
+    return {'pairs': len(want), 'covered': len(want) - len(missing), 'missing': ['%s=%s x %s=%s' % m for m in missing[:12]]}
+
+
 def all_templates(tier):
     thorough = tier == 'thorough'
     ts = delay_templates() + fidelity_templates(1500 if thorough else 260, DESIGN_SEED) + channel_templates(thorough)
+    ts += mono_templates() + axes_templates(320, AXES_SEED) + msframe_templates()
     seen, out = set(), []
     for t in ts:
         if tid(t) not in seen:
@@ -285,12 +412,18 @@ def metrics(t, m):
     # carrying a noise / sweep signal are used (channel j carries family (family + j) % 5 unless it is
     # derived from channel 0 by a stereo relation).  Signed offsets from the reported look-ahead, in ms.
     lfe = t['ch'] - 1 if (t['kind'] == 'ms1' and t['ch'] >= 6) else -1     # the LFE channel is low-passed: no sharp peak
-    sharp = [c for j, c in enumerate(chs) if chan_family(t, j) in SHARP and j != lfe]
+    same = len(chs) == t['ch']                     # decoder channel count = encoder's
+    if same:
+        sharp = [c for j, c in enumerate(chs) if chan_family(t, j) in SHARP and j != lfe]
+    elif len(chs) == 1:                            # mono decoder of a stereo stream: the down-mix of both inputs
+        sharp = chs if all(chan_family(t, j) in SHARP for j in range(t['ch'])) else []
+    else:                                          # stereo decoder of a mono stream: both outputs carry input 0
+        sharp = chs if t['family'] in SHARP else []
     if sharp and all(c['pk'] > 0.5 for c in sharp):
         offs = [(c['dly'] - m['la']) * 1000.0 / Fs for c in sharp]
         out['dly_max_ms'] = max(offs)
         out['dly_min_ms'] = min(offs)
-    if t['stereo'] == 0 and len(chs) > 1:
+    if t['stereo'] == 0 and len(chs) > 1 and same:
         out['cross_max'] = max(abs(c['row'][j]) for i, c in enumerate(chs) for j in range(len(chs)) if j != i)
     return out
 
@@ -546,8 +679,8 @@ def search(ctx):
                       '+-0.1 ms with SILK / VOIP high-pass), and SNR, correlation peak, level, per-band energy error, channel gain/sign, '
                       'cross-talk, signed delay offset within a margin of the values the unchanged tree gave for the same line '
                       '(margins: %s, or %.2f x the template\'s seed-to-seed spread)' % (MARGIN, SPREAD_FRACTION),
-            'templates': {'delay': sum(1 for t in ts if t['cls'] == 'delay'), 'fid': sum(1 for t in ts if t['cls'] == 'fid'),
-                          'chan': sum(1 for t in ts if t['cls'] == 'chan')},
+            'templates': {c: sum(1 for t in ts if t['cls'] == c) for c in ('delay', 'fid', 'chan', 'mono', 'axes', 'msfr')},
+            'option_axes_pair_coverage': pair_coverage(ts),
             'calibration': {'file': os.path.relpath(CAL_PATH, common.VERIF), 'pool_seeds': K, 'repo_tree_hash': cal.get('repo_tree_hash'),
                             'templates_without_reference_skipped': uncal},
             'streams': status, 'fresh_delay_cases_without_sharp_peak': unmeasurable,
@@ -598,19 +731,27 @@ def calibration_templates():
     return out
 
 
-def calibrate(nseeds=16, workers=6):
+def calibrate(nseeds=16, workers=6, new_only=False):
     """Measure every template of both tiers on the tree VERIF_REPO points to (must be the unchanged /repo) for each
-    of `nseeds` pool signal seeds and write CAL_PATH.  Run by hand only; the check never calls this."""
+    of `nseeds` pool signal seeds and write CAL_PATH.  Run by hand only; the check never calls this.
+    `new_only`: keep the existing file's seeds and reference values, measure only templates it does not have yet."""
     from check import Ctx
     ctx = Ctx('C04', 'thorough', 1)
     h = harness(ctx)
     ts = calibration_templates()
-    rng = common.SplitMix(0xC04CA1)
-    seeds = []
-    while len(seeds) < nseeds:
-        v = 1 + rng.below(POOL_LIMIT)
-        if v not in seeds:
-            seeds.append(v)
+    prev = None
+    if new_only:
+        prev = json.load(open(CAL_PATH))
+        seeds = prev['seeds']; nseeds = len(seeds)
+        ts = [t for t in ts if tid(t) not in prev['ref']]
+        print('measuring %d new templates (%d already have reference values)' % (len(ts), len(prev['ref'])))
+    else:
+        rng = common.SplitMix(0xC04CA1)
+        seeds = []
+        while len(seeds) < nseeds:
+            v = 1 + rng.below(POOL_LIMIT)
+            if v not in seeds:
+                seeds.append(v)
     jobs = [(t, sd) for t in ts for sd in seeds]
     lines = [cfg_line(t, sd) for t, sd in jobs]
     t0 = time.time()
@@ -640,6 +781,11 @@ def calibrate(nseeds=16, workers=6):
            'rule': 'a metric of a round trip may differ from the reference of the same line by at most its margin, or by '
                    '%.2f x the spread of the reference values of the template over the pool seeds, whichever is larger' % SPREAD_FRACTION,
            'margin': MARGIN, 'templates': len(ref), 'ref': ref}
+    if prev is not None:
+        cal['repo_tree_hash'] = prev['repo_tree_hash']
+        cal['added'] = prev.get('added', []) + [{'repo_tree_hash': common.repo_hash(), 'templates': len(ref)}]
+        prev['ref'].update(ref)
+        cal['ref'] = prev['ref']; cal['templates'] = len(cal['ref'])
     with open(CAL_PATH, 'w') as f:
         f.write(json.dumps(cal, sort_keys=True, separators=(',', ':')).replace('},"', '},\n"'))
     print('wrote %s: %d templates x %d seeds' % (CAL_PATH, len(ref), nseeds))
@@ -648,6 +794,8 @@ def calibrate(nseeds=16, workers=6):
 
 if __name__ == '__main__':
     if len(sys.argv) >= 2 and sys.argv[1] == 'calibrate':
+        if len(sys.argv) > 2 and sys.argv[2] == 'new':
+            sys.exit(calibrate(new_only=True))
         sys.exit(calibrate(int(sys.argv[2]) if len(sys.argv) > 2 else 16))
     else:
         print(__doc__)
